@@ -578,17 +578,17 @@ def all_mutants(bases, rng, tier):
 # ---------------------------------------------------------------- running and parsing
 
 QUICK_MASKS = [0, 63, 1, 2, 12, 16 + 8 + 4, 32 + 1, 21]    # none, all, s2c, c2s, i2c+ni, nc+ni+i2c, pose+s2c, mixed
-METER = re.compile(r" (?:m|o|t|T)=\d+")
+METER = re.compile(r" (?:m|o|t|T|c|C)=\d+")
 
 
 def strip_meter(s, keep_ops=False):
     if keep_ops:
-        return re.sub(r" (?:m|t|T)=\d+", "", s)
+        return re.sub(r" (?:m|t|T|c|C)=\d+", "", s)
     return METER.sub("", s)
 
 
 def meter(s):
-    return {k: int(v) for k, v in re.findall(r" (m|o|t|T)=(\d+)", s)}
+    return {k: int(v) for k, v in re.findall(r" (m|o|t|T|c|C)=(\d+)", s)}
 
 
 def parse_tot(line):
